@@ -218,12 +218,21 @@ func ruleAuthComposition(c *Ctx, rule string) {
 	pos := w.pos(fn.Pos())
 	msgKey := w.key(fn.Params[1])
 	reqKey := w.key(fn.Params[0])
-	var trueRets []*ssa.Return
-	for _, ret := range returnsOf(fn) {
-		v := w.resolveLoad(ret.Results[1])
+	var trueRets []expRet
+	// (results handed back as the fields of a small struct built by the stages are followed
+	// to the returns of those stages)
+	for _, er := range w.expandStructReturns(fn) {
+		ret := er.ret
+		if len(er.vals) < 2 {
+			continue
+		}
+		if er.vals[1] == nil {
+			continue // the zero value: false
+		}
+		v := w.resolveLoad(er.vals[1])
 		if cst, ok := v.(*ssa.Const); ok && cst.Value != nil {
 			if constant.BoolVal(cst.Value) {
-				trueRets = append(trueRets, ret)
+				trueRets = append(trueRets, er)
 			}
 			continue
 		}
@@ -249,7 +258,8 @@ func ruleAuthComposition(c *Ctx, rule string) {
 		c.Bad(rule, fname(fn), "hasAuth=true return", pos, fmt.Sprintf("%d returns with hasAuth=true, expected exactly 1", len(trueRets)))
 		return
 	}
-	ret := trueRets[0]
+	ret := trueRets[0].ret
+	resVals := trueRets[0].vals
 	facts := w.factsAt(ret)
 	if os.Getenv("TURNCHECK_C03DEBUG") != "" {
 		for _, f := range facts {
@@ -413,12 +423,19 @@ func ruleAuthComposition(c *Ctx, rule string) {
 		return kc == hcall && ki == 1 && w.key(call.Call.Args[1]) == msgKey
 	}), "stun.MessageIntegrity(key returned by that AuthHandler call).Check(stunMsg) == nil")
 	if hcall != nil {
-		kc, ki := callOf(stripConv(w.resolveLoad(ret.Results[0])))
-		uc, ui := callOf(w.resolveLoad(ret.Results[2]))
+		var r0, r2 ssa.Value
+		if len(resVals) > 2 {
+			r0, r2 = resVals[0], resVals[2]
+		}
+		if r0 == nil || r2 == nil {
+			r0, r2 = ret.Results[0], ret.Results[len(ret.Results)-1]
+		}
+		kc, ki := callOf(stripConv(w.resolveLoad(r0)))
+		uc, ui := callOf(w.resolveLoad(r2))
 		if kc != hcall || uc != hcall {
 			// handed back by the verification stage: what its successful returns yield
-			kv, _, _ := w.originAt(ret.Results[0], ret)
-			uv, _, _ := w.originAt(ret.Results[2], ret)
+			kv, _, _ := w.originAt(r0, ret)
+			uv, _, _ := w.originAt(r2, ret)
 			if k2, i2 := callOf(stripConv(under(stripConv(kv)))); k2 == hcall {
 				kc, ki = k2, i2
 			}
@@ -477,7 +494,17 @@ func ruleOwnerCheck(c *Ctx, rule string, handlers map[string]*ssa.Function) {
 				}
 				userOK := func(v ssa.Value) bool {
 					uc, ui := callOf(v)
-					return uc == ac && ui == 2
+					if uc == ac && ui == 2 {
+						return true
+					}
+					// handed through a thin wrapper (r.authenticate() returning the results of
+					// authenticateRequest unchanged): what the wrapper's result stands for
+					if o, _, _ := w.originAt(v, in); o != nil && o != v {
+						if oc, oi := callOf(o); oc != nil && oi == 2 && (oc == ac || w.key(oc) == w.key(ac)) {
+							return true
+						}
+					}
+					return false
 				}
 				if cal := staticCallee(in); cal == tcpGet || cal == byUser {
 					args := in.(ssa.CallInstruction).Common().Args
@@ -499,6 +526,10 @@ func ruleOwnerCheck(c *Ctx, rule string, handlers map[string]*ssa.Function) {
 					})
 				} else {
 					g = w.guardedBy(in, byUser, -1, "nonnil", func(g *ssa.Call) bool {
+						if os.Getenv("TURNCHECK_C03DEBUG") != "" {
+							ok2, why := w.requestTuple(g.Call.Args[1], f)
+							fmt.Fprintf(os.Stderr, "C03.4 owner guard at %s: mgr=%s want=%s user=%v tuple=%v %s\n", w.instrPos(in), w.key(g.Call.Args[0]), w.key(h.Params[0])+".AllocationManager", userOK(g.Call.Args[2]), ok2, why)
+						}
 						if w.key(g.Call.Args[0]) != w.key(h.Params[0])+".AllocationManager" || !userOK(g.Call.Args[2]) {
 							return false
 						}
